@@ -485,9 +485,11 @@ class G:
             members.append(self.member(0, bad == "member" and i == (n // 2), pad_ok=last or False))
         if bad == "padding" and n >= 2:
             i = r.randrange(0, n - 1)
-            k, calls = self.builder(r.choice(["bye", "rr", "app", "sr", "sdes", "unk"]), small=True)
+            k, calls = self.builder(r.choice(["bye", "rr", "app", "sr", "sdes", "unk", "tfb", "pfb", "custom"]), small=True)
+            if k in ("tfb", "pfb"):      # the right kind for the FCI: only the padding rule is violated
+                k = "tfb" if calls[0]["fci"]["f"] == "nack" else "pfb"
             calls = [c for c in calls if c["c"] != "padding"] + [{"c": "padding", "v": r.choice([4, 8, 252])}]
-            members[i] = {"kind": k, "calls": calls, "pb": r.random() < 0.5}
+            members[i] = {"kind": k, "calls": calls, "pb": k != "custom" and r.random() < 0.5}
         if bad == "member" and n == 0:
             members.append(self.member(0, True))
         return "compound", [{"c": "new"}] + [{"c": "add_packet", "v": m} for m in members]
